@@ -325,3 +325,36 @@ pub fn same_tree(a: &N, b: &N) -> bool {
         _ => false,
     }
 }
+
+/// copy of a tree without the subtrees for which `keep` is false, without attributes for which `attr_ok`
+/// is false, and with adjacent text nodes merged (as a re-parse would merge them)
+pub fn prune(n: &N, keep: &dyn Fn(&N) -> bool, attr_ok: &dyn Fn(&str) -> bool) -> N {
+    fn kids(ks: &[N], keep: &dyn Fn(&N) -> bool, attr_ok: &dyn Fn(&str) -> bool) -> Vec<N> {
+        let mut out: Vec<N> = Vec::new();
+        for k in ks {
+            if let N::Elem { .. } = k {
+                if !keep(k) {
+                    continue;
+                }
+            }
+            let p = prune(k, keep, attr_ok);
+            if let (Some(N::Text(a)), N::Text(b)) = (out.last_mut(), &p) {
+                a.push_str(b);
+                continue;
+            }
+            out.push(p);
+        }
+        out
+    }
+    match n {
+        N::Doc(k) => N::Doc(kids(k, keep, attr_ok)),
+        N::Elem { name, html, attrs, kids: k } => N::Elem { name: name.clone(), html: *html, attrs: attrs.iter().filter(|a| attr_ok(&a.0)).cloned().collect(), kids: kids(k, keep, attr_ok) },
+        x => x.clone(),
+    }
+}
+
+pub fn to_html(n: &N) -> String {
+    let mut s = String::new();
+    serialize(n, &|_| true, &|_| true, &mut s);
+    s
+}
